@@ -37,10 +37,17 @@ SITES = {
     "trait": {"traitbelow": ["doc", "allow", "must", "cfgon", "hid"],
               "method": ["doc", "allow", "must", "cfgon", "cfgoff", "hid", "hcount"],
               "param": ["allow", "cfgon"]},
+    # an entraited trait whose attributed method is async and PROVIDED (rewritten to `fn -> impl Future { async move {..} }`)
+    "trait_ad": {"traitbelow": ["doc", "allow"], "method": ["doc", "allow", "must", "cfgon", "cfgoff"], "param": ["allow"]},
+    # an entraited trait with a delegation-target trait; the attributed method is PROVIDED (its body is dropped from the target trait)
+    "target_d": {"traitbelow": ["doc", "allow"], "method": ["doc", "allow", "cfgon", "cfgoff"], "param": ["allow"]},
     "impl": {"implbelow": ["doc", "allow", "cfgon", "hid"],
              "implfn": ["doc", "allow", "inline", "must", "cfgon", "cfgoff", "hid", "hcount", "cahcount"],
              "param": ["allow", "cfgon"], "ptuple": ["allow"], "pwild": ["allow"]},
 }
+
+
+TRAITLIKE = ("trait", "trait_ad", "target_d")
 
 
 def enumerate_states(tier):
@@ -79,7 +86,7 @@ def has(s, site, a):
 
 
 def fn_disabled(s):
-    site = {"fn": "below", "fnconc": "below", "mod": "modfn", "trait": "method", "impl": "implfn"}[s["mode"]]
+    site = {"fn": "below", "fnconc": "below", "mod": "modfn", "trait": "method", "trait_ad": "method", "target_d": "method", "impl": "implfn"}[s["mode"]]
     return has(s, site, "cfgoff")
 
 
@@ -131,6 +138,35 @@ def render(s):
         L.append("    pub struct App;")
         L.append("    impl Tr for App { %s fn other(&self) -> i64 { 1 } }" % ("" if off else "fn f(&self, %s) -> i64 { a }" % PAT[0].replace("_: u8", "_x: u8")))
         app = "::entrait::Impl::new(App)"
+    elif mode == "trait_ad":
+        L.append("    #[::entrait::entrait]")
+        L += ["    " + a for a in attrs_at(s, "traitbelow")]
+        L.append("    pub trait Tr {")
+        L += ["        " + a for a in attrs_at(s, "method")]
+        L.append("        async fn f(&self, %s a: i64) -> %s %s" % (pa, ret, body))
+        L.append("        fn other(&self) -> i64;")
+        L.append("    }")
+        L.append("    pub struct App;")
+        L.append("    impl Tr for App { fn other(&self) -> i64 { 1 } }")
+        app = "::entrait::Impl::new(App)"
+    elif mode == "target_d":
+        L.append("    #[::entrait::entrait(TrImpl, delegate_by = DelegateTr)]")
+        L += ["    " + a for a in attrs_at(s, "traitbelow")]
+        L.append("    pub trait Tr {")
+        L += ["        " + a for a in attrs_at(s, "method")]
+        L.append("        fn f(&self, %s a: i64) -> %s %s" % (pa, ret, "{ loop {} }" if off else "{ a + 100 }"))
+        L.append("        fn other(&self) -> i64;")
+        L.append("    }")
+        L.append("    pub struct X;")
+        L.append("    #[::entrait::entrait]")
+        L.append("    impl TrImpl for X {")
+        if not off:
+            L.append("        pub fn f(deps: %s, a: i64) -> i64 { a }" % ANY)
+        L.append("        pub fn other(deps: %s) -> i64 { 1 }" % ANY)
+        L.append("    }")
+        L.append("    pub struct App;")
+        L.append("    impl DelegateTr<Self> for App { type Target = X; }")
+        app = "::entrait::Impl::new(App)"
     else:
         L.append("    #[::entrait::entrait(TrImpl, delegate_by = DelegateTr)]")
         tpat = {"param": "a: i64", "ptuple": "a: (i64, i64)", "pwild": "x: u8, a: i64"}[psite]
@@ -148,7 +184,7 @@ def render(s):
         app = "::entrait::Impl::new(App)"
     L.append("    pub fn client() {")
     L.append("        let app = %s;" % app)
-    fcall = '"-".to_string()' if off else "app.f(%s).to_string()" % PAT[1]
+    fcall = '"-".to_string()' if off else ("rt::block_on(app.f(%s)).to_string()" if mode == "trait_ad" else "app.f(%s).to_string()") % PAT[1]
     L.append('        rt::out("r", format!("{}|{}", %s, app.other()));' % fcall)
     L += ["    }", "}"]
     return engine.Unit(key, "\n".join(L), 'rt::run("%s", %s::client);' % (key, key), s)
@@ -166,9 +202,9 @@ def src_attr_norm(text):
 
 def model(s):
     mode = s["mode"]
-    site = {"fn": "below", "fnconc": "below", "mod": "modfn", "trait": "method", "impl": "implfn"}[mode]
+    site = {"fn": "below", "fnconc": "below", "mod": "modfn", "trait": "method", "trait_ad": "method", "target_d": "method", "impl": "implfn"}[mode]
     fn_attrs = [src_attr_norm(a) for a in attrs_at(s, site)]
-    if mode == "trait":
+    if mode in TRAITLIKE:
         method_attrs = sorted(fn_attrs)                      # everything mirrored
     elif mode in ("mod", "impl"):
         method_attrs = sorted(a for a in fn_attrs if a.startswith("#[cfg("))   # cfg mirrored, nothing else
@@ -184,7 +220,7 @@ def model(s):
             if disabled:
                 counts[tag] = None
             else:
-                counts[tag] = 2 if (mode == "trait" and st == "method") else 1
+                counts[tag] = 2 if (mode in TRAITLIKE and st == "method") else 1
     return dict(method_attrs=method_attrs, result=("-|1" if fn_disabled(s) else "5|1"), compiles=compiles, helper_counts=counts)
 
 
@@ -252,7 +288,7 @@ def evaluate(states, report, tier):
                 problems.append(("no-generated-trait", ""))
             if not impls:
                 problems.append(("no-generated-impl", ""))
-            if trait is not None and s["mode"] != "trait":
+            if trait is not None and s["mode"] not in TRAITLIKE:
                 extra = [norm_attr(a) for a in trait["attrs"]]
                 if extra:
                     problems.append(("attribute-copied-to-trait", str(extra)))
@@ -260,14 +296,14 @@ def evaluate(states, report, tier):
                 extra = [norm_attr(a) for a in imp["attrs"]]
                 if extra:
                     problems.append(("attribute-copied-to-impl", str(extra)))
-            holders = ([("trait", trait)] if (trait is not None and s["mode"] != "trait") else []) + [("impl", i) for i in impls]
+            holders = ([("trait", trait)] if (trait is not None and s["mode"] not in TRAITLIKE) else []) + [("impl", i) for i in impls]
             for where, h in holders:
                 for f in h["items"]:
                     if f["k"] != "fn":
                         continue
                     for a in f["sig"]["inputs"]:
                         # (an entraited trait's own signatures are mirrored as written, parameter attributes included)
-                        if a["attrs"] and s["mode"] != "trait":
+                        if a["attrs"] and s["mode"] not in TRAITLIKE:
                             problems.append(("parameter-attribute-in-generated-signature:" + where, a["tokens"]))
                     got = sorted(norm_attr(a) for a in f["attrs"])
                     want = m["method_attrs"] if f["sig"]["ident"] == "f" else []
